@@ -15,6 +15,8 @@ import asyncio
 import multiprocessing as mp
 import os
 import random
+import selectors
+import signal
 import weakref
 
 from . import tm
@@ -30,13 +32,53 @@ async def naps(rnd, hi):
         await asyncio.sleep(0)
 
 
-def run_loop(main):
-    loop = asyncio.new_event_loop()
+class Deadlock(BaseException):
+    """Nothing is ready and nothing is scheduled: every task waits for something that cannot happen."""
+
+
+class _Selector(selectors.DefaultSelector):
+    # The scenarios use no I/O, no timers and no threads.  When the loop asks to block without a timeout,
+    # no callback is ready and none is scheduled -- a deterministic test for "stuck", no clock involved.
+    def select(self, timeout=None):
+        if timeout is None:
+            raise Deadlock()
+        return super().select(timeout)
+
+
+class _Busy(BaseException):
+    pass
+
+
+def _busy(signum, frame):
+    raise _Busy()
+
+
+def run_loop(main, trace=None):
+    """Run one scenario on a fresh asyncio loop.  A scenario that can make no progress (Deadlock) or burns
+    CPU without finishing (20 s of CPU time, not wall-clock) ends with a final event the observation
+    specs have no action for, so TLC rejects the trace right there."""
+    loop = asyncio.SelectorEventLoop(_Selector())
+    loop.set_exception_handler(lambda loop_, ctx: None)     # what an abandoned scenario leaves behind is of no interest
+    signal.signal(signal.SIGVTALRM, _busy)
+    signal.setitimer(signal.ITIMER_VIRTUAL, 20)
     try:
         return loop.run_until_complete(main)
+    except Deadlock:
+        if trace is not None:
+            trace.append({"e": "deadlock"})
+        return None
+    except _Busy:
+        if trace is not None:
+            trace.append({"e": "never-finishes"})
+        return None
     finally:
+        signal.setitimer(signal.ITIMER_VIRTUAL, 0)
         try:
+            for t in asyncio.all_tasks(loop):
+                t.cancel()
             loop.run_until_complete(loop.shutdown_asyncgens())
+        except BaseException:  # noqa: BLE001
+            pass
         finally:
             loop.close()
 
@@ -155,7 +197,7 @@ def tee_scenario(seed):
         ev(e="quiesce")
         return locked
 
-    locked = run_loop(main())
+    locked = run_loop(_named(main(), "0"), trace)
     return {"cfg": cfg, "ev": trace, "seed": seed, "lock_left_held": locked, "kind": "tee"}
 
 
@@ -262,7 +304,7 @@ def lru_scenario(seed):
                 return e["e"] == "start"
         return False
 
-    run_loop(_named(main(), "0"))
+    run_loop(_named(main(), "0"), trace)
     return {"cfg": cfg, "ev": trace, "seed": seed, "kind": "lru"}
 
 
@@ -334,6 +376,7 @@ def cprop_scenario(seed):
                 if rnd.random() < 0.15:
                     eph_got.append(0)
                     i = ninst + len(eph_got)
+                    cfg["insts"] = i
                     aw = Res(i).attr            # the only reference to the instance is the attribute just taken
                 else:
                     i = rnd.randint(1, ninst)
@@ -397,7 +440,7 @@ def cprop_scenario(seed):
                 return e["e"] == "access"
         return False
 
-    run_loop(_named(main(), "0"))
+    run_loop(_named(main(), "0"), trace)
     return {"cfg": cfg, "ev": trace, "seed": seed, "kind": "cprop"}
 
 
